@@ -467,6 +467,34 @@ def condition_value(repo, cname, heads, flow, internal="Open", shutoff=None):
     return interpreted("%s.evaluate" % cname, thunk)
 
 
+def condition_world(repo, cname, state):
+    """-> (condition object built by <cname>'s own constructor on mock nodes / link / network in `state`, apply) where apply(state) moves the SAME mocks to
+    another state.  state = dict(hs, he, flow, internal, setting): heads of the two nodes, flow, internal status name, valve setting."""
+    world, LS = make_world(repo)
+    s, e = Mock("start node", name="S", elevation=2.0), Mock("end node", name="E", elevation=3.0)
+    link = Mock("link", name="L", start_node=s, end_node=e, start_node_name="S", end_node_name="E", _user_status=LS["Active"], minor_loss=2.5, diameter=0.3,
+                speed_timeseries=Mock("speed", at=lambda t: 1.0, base_value=1.0, pattern_name=None), get_head_curve_coefficients=lambda: (50.0, 1.0, 1.0))
+    nodes = {"S": s, "E": e}
+    wn = Mock("network", sim_time=0, get_node=lambda n: nodes[n] if isinstance(n, str) else n, get_link=lambda n: link)
+
+    def apply(st):
+        s.head, e.head = st["hs"], st["he"]
+        s._head, e._head = st["hs"], st["he"]
+        link.flow = link._flow = st["flow"]
+        link._internal_status = link.status = LS[st["internal"]]
+        link.setting = link._setting = st["setting"]
+    apply(state)
+    cond, err = interpreted("%s(...)" % cname, lambda: repo_class(world, CTRL, cname)(wn, link))
+    if err is not None:
+        raise ExtractError("%s: the constructor raised %s on the mock world" % (cname, err))
+    return cond, apply
+
+
+def evaluate_condition(repo, cname, cond):
+    world, _LS = make_world(repo)
+    return interpreted("%s.evaluate" % cname, lambda: world.interp.getattr_(cond, "evaluate")())
+
+
 def head_pump(repo, curves, use):
     """a HeadPump named P in a network whose curve registry holds `curves` ({name: points}); the curve `use` is assigned to it the way
     WaterNetworkModel.add_pump does (pump.pump_curve_name = name).  -> (pump, {name: Curve instance})"""
@@ -986,9 +1014,39 @@ def run(repo, chk):
                        "%s / %s are never both true [%s]" % (pclose, popen, region), loc(f2), found="close=%s open=%s" % (close, opn))
     chk.floor("R-C02-8", 40)
 
+    # ---------------------------------------------------------------- R-C02-9 status conditions read the state of the moment
+    # the simulator builds every internal status condition ONCE per run_sim and evaluates it after every solve; heads, flows, internal statuses and
+    # (through controls) valve settings change in between.  Differential, interpreted (T3, bounded to the state pairs below): a condition built in
+    # state S1 and evaluated after the mocks moved to S2 must give what a condition freshly built in S2 gives.
+    internal = sorted(n for n, c in repo.classes(CTRL).items() if n.startswith("_") and n.endswith("Condition")
+                      and any(isinstance(m, ast.FunctionDef) and m.name == "evaluate" for m in c.body))
+    if len(internal) < 12:
+        raise AnchorError("internal status condition classes not found in %s (%s)" % (CTRL, internal))
+    S1 = dict(hs=40.0, he=35.0, flow=0.02, internal="Active", setting=30.0)
+    moves = [dict(S1, setting=80.0), dict(S1, setting=5.0), dict(S1, hs=20.0, he=36.0), dict(S1, flow=-0.02), dict(S1, internal="Closed", flow=0.0),
+             dict(S1, internal="Closed", flow=0.0, setting=80.0), dict(S1, internal="Open", setting=60.0), dict(S1, internal="Open", he=90.0, hs=95.0, setting=50.0),
+             dict(S1, internal="Closed", flow=0.0, hs=60.0, he=10.0, setting=45.0), dict(S1, flow=1e-9, setting=0.5)]
+    for cname in internal:
+        bad_ = []
+        for S2 in moves:
+            cond_, apply = condition_world(repo, cname, S1)
+            apply(S2)
+            got = evaluate_condition(repo, cname, cond_)
+            fresh, _ap = condition_world(repo, cname, S2)
+            want = evaluate_condition(repo, cname, fresh)
+            if got != want:
+                bad_.append("after %s: %s, a condition built in that state: %s" % ({k: v for k, v in S2.items() if S1[k] != v}, got[1] or got[0], want[1] or want[0]))
+        chk.expect(not bad_, "R-C02-9", "%s.evaluate decides on the state at the time of evaluation" % cname, loc(repo.func(CTRL, cname + ".evaluate")),
+                   "the condition objects are built once per run_sim; a quantity cached at construction (a valve's setting turned into a head, a node's head) goes stale when a control "
+                   "or the solver changes it: the status automaton keeps deciding on the initial value while the head-loss row follows the new one",
+                   expected="same verdict as a condition built in the new state", found=bad_[:3])
+    chk.floor("R-C02-9", 12)
+
 
 _W = lambda name, old, new, rule, **kw: dict(name=name, file=CON, old=old, new=new, rule=rule, **kw)
 WITNESSES = [
+    dict(name="prv-setting-head-cached-at-construction", file=CTRL, old="        self._r = 8.0 * self._prv.minor_loss / (9.81 * math.pi**2 * self._prv.diameter**4)\n\n    def requires(self):\n        return OrderedSet([self._prv, self._start_node, self._end_node])\n\n    def evaluate(self):\n        if self._prv._internal_status == LinkStatus.Active:\n            if self._prv.flow < -self._Qtol:\n                return False\n            elif self._start_node.head < self._prv.setting + self._end_node.elevation + self._r",
+         new="        self._r = 8.0 * self._prv.minor_loss / (9.81 * math.pi**2 * self._prv.diameter**4)\n        self._hset = self._prv.setting + self._end_node.elevation\n\n    def requires(self):\n        return OrderedSet([self._prv, self._start_node, self._end_node])\n\n    def evaluate(self):\n        if self._prv._internal_status == LinkStatus.Active:\n            if self._prv.flow < -self._Qtol:\n                return False\n            elif self._start_node.head < self._hset + self._r", rule="R-C02-9"),
     dict(name="three-point-curve-keeps-the-start-values", file=ELEM, old="                    coeff, cov = curve_fit(flow_vs_head_func, Q, H, [A0, B0, C0])\n", new="                    coeff = [A0, B0, C0]\n", rule="R-C02-5"),
     dict(name="head-pump-ignores-reverse-flow", file=CTRL, old="        if self._pump.flow is not None and self._pump.flow < -2.83168e-6:\n            return True\n", new="", rule="R-C02-8"),
     dict(name="pump-memo-key-aliases-live-list", file=ELEM, old="            self._coeffs_curve_points = list(curve.points)", new="            self._coeffs_curve_points = curve.points", rule="R-C02-5"),
